@@ -9,6 +9,11 @@ from .sym import *
 def _wb(ex, node, new):
     """write a mutated container back to the l-value it came from: node is the Call, node.func.value the l-value"""
     ex.assign(node.func.value, new)
+    wt = getattr(ex, "write_through", None)
+    if wt is not None:
+        if isinstance(node.func.value, ast.Name) and (id(ex.scope.vars), node.func.value.id) in getattr(ex, "_stale_alias", ()):
+            raise Unsupported(f"`{node.func.value.id}` was bound to a container stored in an object field that has been written since: whether the mutation reaches that field is not tracked")
+        wt(node.func.value, new)
     h = getattr(ex.spec, "on_mutation", None)
     if h is not None:
         h(ex, ex.site(node.func.value), node.func.attr, node, new)
